@@ -352,6 +352,51 @@ func c08order(c *Ctx, r *Result) {
 			}
 		}
 		if !found {
+			// for _, f := range slices.Backward(filters) / slices.All / slices.Values: the loop body is a yield closure; the
+			// direction is the iterator's
+			for _, an := range fn.AnonFuncs {
+				if an.Synthetic != "range-over-func yield" {
+					continue
+				}
+				for _, site := range callsIn(an) {
+					if !w.callee(site) {
+						continue
+					}
+					// the iterator the enclosing function ranges over
+					dirOf := ""
+					for _, s2 := range callsIn(fn) {
+						if g := s2.Common().StaticCallee(); g != nil {
+							o := g
+							if g.Origin() != nil {
+								o = g.Origin()
+							}
+							if o.Pkg != nil && o.Pkg.Pkg.Path() == "slices" {
+								switch o.Name() {
+								case "Backward":
+									dirOf = "backwards"
+								case "All", "Values":
+									dirOf = "forwards"
+								}
+							}
+						}
+					}
+					if dirOf == "" {
+						continue
+					}
+					found = true
+					want := "forwards"
+					if w.want < 0 {
+						want = "backwards"
+					}
+					r.Check(dirOf == want, "C08.2", w.fn+"#direction", c.InstrPos(site.(ssa.Instruction)), "walks the filter list "+want+" (range over slices iterator: "+dirOf+")")
+					if w.want < 0 && dirOf == want {
+						r.Hold("C08.2", w.fn+"#starts-at-last-filter", c.InstrPos(site.(ssa.Instruction)), "slices.Backward starts at the last element")
+						r.Hold("C08.2", w.fn+"#down-to-first-filter", c.InstrPos(site.(ssa.Instruction)), "slices.Backward ends at the first element")
+					}
+				}
+			}
+		}
+		if !found {
 			r.Shortfall(c, "C08.2", fmt.Sprintf("C08.2: %s no longer applies the filters one by one", w.fn))
 		}
 	}
